@@ -24,31 +24,6 @@ open MosnVerif.Model MosnVerif.Model.GoTypes MosnVerif.Model.GoDuration
 
 /-! ## field tables by position -/
 
-def Fields.length : Fields → Nat
-  | .nil => 0
-  | .cons _ _ _ r => r.length + 1
-
-/-- (key, omitempty, shape) of the field at position `i` -/
-def Fields.get? : Fields → Nat → Option (String × Bool × Shape)
-  | .nil, _ => none
-  | .cons k o sh _, 0 => some (k, o, sh)
-  | .cons _ _ _ r, i + 1 => r.get? i
-
-/-- position of the field with JSON key `k` -/
-def Fields.indexOf : Fields → String → Nat
-  | .nil, _ => 0
-  | .cons k' _ _ r, k => if k' == k then 0 else r.indexOf k + 1
-
-/-- `*MetadataConfig{filter_metadata: LbMeta{"mosn.lb": map[string]interface{}}}` -/
-def metaShape : Shape :=
-  .ptr (.struct (.cons "filter_metadata" false (.struct (.cons "mosn.lb" false .hmap .nil)) .nil))
-
-/-- field `i` is an `omitempty` member of type `*MetadataConfig` -/
-def metaAt (fs : Fields) (i : Nat) : Bool :=
-  match fs.get? i with
-  | some (_, o, sh) => o && sh == metaShape
-  | none => false
-
 /-- field `i` is the `omitempty` string member `key` -/
 def strAt (fs : Fields) (i : Nat) (key : String) : Bool :=
   match fs.get? i with
@@ -56,12 +31,6 @@ def strAt (fs : Fields) (i : Nat) (key : String) : Bool :=
   | none => false
 
 /-! ## metadata wrappers -/
-
-/-- `configToMetadata` of a `*MetadataConfig` value -/
-def mdOf (v : Option CVal) : List (String × String) :=
-  match v with
-  | some (.ptr [.struct [.struct [.hole j]]]) => toMeta j
-  | _ => []
 
 /-- in memory: the embedded config and the derived metadata map -/
 structure MetaV where
@@ -122,6 +91,17 @@ def lnM (fs : Fields) (ia : Nat) (x : LnV) : Json :=
   encode (.struct fs) (match x.cfg with
     | .struct vs => .struct (vs.set ia (.str x.addr))
     | c => c)
+
+/-! ## items of the directory modes -/
+
+/-- the `name` member of a cluster / virtual-host value, as the bytes of the Go string -/
+def itemName (sh : Shape) (c : CVal) : List UInt8 :=
+  match sh, c with
+  | .struct fs, .struct vs =>
+    (match vs[fs.indexOf "name"]? with
+     | some (.str s) => s.toUTF8.toList
+     | _ => [])
+  | _, _ => []
 
 /-! ## unfolding the regenerated tables, custom members by their embedded config -/
 
